@@ -78,7 +78,7 @@ DoCopy == \E n \in {0, 1, 7, 8, 9, 17} :
     /\ Inside(rd, n)
     /\ LET A == Slice(Src(rd.src), rd.pos, n)  D == DeliverAll(wr, A)  w2 == WAfter(wr, A)
            one == BitByBit(rd, wr, n)
-       IN  /\ CopyStep(rd, wr, n, "ok", D, Adv(rd, n), w2)
+       IN  /\ CopyStep(rd, wr, n, "ok", "", D, Adv(rd, n), w2)
            \* CopyEquivalence (the counters differ only in how they got there: same totals)
            /\ one[1].pos = Adv(rd, n).pos /\ one[1].cnt = Adv(rd, n).cnt
            /\ one[2] = w2 /\ one[3] = D
